@@ -279,6 +279,8 @@ def _empty_guards(r: BufferRoles) -> List[Node]:
 
 def c03(ctx: Ctx) -> None:
     r = BufferRoles(ctx)
+    from .common import rule_unbound
+    rule_unbound(ctx, 'C03-U1', [s_ for s_ in r.u.functions() if s_.enclosing_class() is r.cls and s_.enclosing_function() is None], 'BufferAsyncCalls')
     p, G, gl = r.p, r.G, r.gload
     ctx.trusted += ['asyncio.Queue / wait_for / gather', 'loop.call_soon_threadsafe is FIFO and thread-safe']
     ctx.rule('C03-S1', 'the completion flag is set only after a normal completion of the wrapped call (or when the round set is empty)', 1)
@@ -688,6 +690,8 @@ def _implied_facts(g: CFG, b: Node, truth: bool, r: BufferRoles, cancelp: str) -
 
 def c07(ctx: Ctx) -> None:
     r = BufferRoles(ctx)
+    from .common import rule_unbound
+    rule_unbound(ctx, 'C07-U1', [s_ for s_ in r.u.functions() if s_.enclosing_class() is r.cls and s_.enclosing_function() is None], 'BufferAsyncCalls')
     p, G = r.p, r.G
     ctx.trusted += ['asyncio ready-queue FIFO order', 'Queue.join / task_done semantics', 'asyncio.Event wakes all waiters']
     ctx.rule('C07-W1', 'wait(): awaited queue join, then wait on the completion flag, nothing suspends after it', 1)
@@ -948,6 +952,8 @@ def _ancestors_until(x: ast.AST, stop: ast.AST):
 
 def c08(ctx: Ctx) -> None:
     r = BufferRoles(ctx)
+    from .common import rule_unbound
+    rule_unbound(ctx, 'C08-U1', [s_ for s_ in r.u.functions() if s_.enclosing_class() is r.cls and s_.enclosing_function() is None], 'BufferAsyncCalls')
     p, G = r.p, r.G
     ctx.trusted += ['asyncio.wait_for timer', 'a single asyncio task runs one coroutine step at a time']
     ctx.rule('C08-D1', 'one awaited call site of the wrapped function, reached from the daemon root by awaited calls only; the root is spawned once', 2)
